@@ -1157,9 +1157,12 @@ void rfbNewFramebuffer(rfbScreenInfoPtr screen, char *framebuffer,
 
 /* hang up on all clients and free all reserved memory */
 
+extern rfbClientIteratorPtr rfbGetClientIteratorWithClosed(rfbScreenInfoPtr rfbScreen);
+
 void rfbScreenCleanup(rfbScreenInfoPtr screen)
 {
-  rfbClientIteratorPtr i=rfbGetClientIterator(screen);
+  /* also the clients that are already closed but not yet reaped by rfbProcessEvents() */
+  rfbClientIteratorPtr i=rfbGetClientIteratorWithClosed(screen);
   rfbClientPtr nextCl,currentCl=rfbClientIteratorNext(i);
   while(currentCl) {
     nextCl=rfbClientIteratorNext(i);
@@ -1204,7 +1207,8 @@ void rfbInitServer(rfbScreenInfoPtr screen)
 
 void rfbShutdownServer(rfbScreenInfoPtr screen,rfbBool disconnectClients) {
   if(disconnectClients) {
-    rfbClientIteratorPtr iter = rfbGetClientIterator(screen);
+    /* also the clients that are already closed but not yet reaped by rfbProcessEvents() */
+    rfbClientIteratorPtr iter = rfbGetClientIteratorWithClosed(screen);
     rfbClientPtr nextCl, currentCl = rfbClientIteratorNext(iter);
 
     while(currentCl) {
